@@ -39,6 +39,13 @@ claim("C05", "path-sensitive fail-stop walk (upload/compaction cones) + edge-cut
       "Decides, for every fault pattern that surfaces as a returned error, that the replica position advances only after a successful upload of exactly pos+1, that no error on the upload/compaction path is dropped (pipe hand-offs and the sticky reader error included), that staged files are removed and that the monitors cannot terminate on an error. Convergence time and ambiguous remote outcomes are not decided.",
       _TB, "DESIGN.md 3/C05")
 
+claim("C10", "path-sensitive fail-stop walk over the restore cone + edge-cut reachability + provenance (incl. pinned ltx)",
+      "Decides restore's loud-failure skeleton on every path: output created only when absent, staged and renamed, integrity failure removes the output path itself, no error in the restore cone is dropped (pipe hand-off included), verification sinks in ltx v0.5.2 (decode succeeds only after the trailer checksum compared equal; compactor verifies every input), resumable-reader discipline, planner gap check. That a corruption always changes a checksum is not decided.",
+      _TB, "DESIGN.md 3/C10")
+claim("C19", "edge-cut reachability + provenance + fail-stop walk on the legacy restore path",
+      "Decides index/offset contiguity of every applied WAL segment anchored at the chosen snapshot, eligibility (not newer than T) of snapshot and segments, the operands of format arbitration, and error discipline of RestoreV3. Reconstruction correctness inside SQLite is not decided.",
+      _TB, "DESIGN.md 3/C19")
+
 _pending = "check not built yet in this revision (planned, see DESIGN.md section 3); not claimed until its rules run clean on the unchanged tree"
-for _p in ["C04","C06","C10","C12","C13","C14","C16","C18","C19"]:
+for _p in ["C04","C06","C12","C13","C14","C16","C18"]:
     na(_p, _pending)
